@@ -796,6 +796,8 @@ class Driver:
                     for s_, p_ in zip(sl_, f_["params"]):
                         if s_ is not None and self.acc(s_, p_["type"]) == "oor":
                             why = "arg=int-out-of-range"
+            if g["kind"] == "op" and fns[0].get("operator") in ("+", "-", "*", "+="):
+                why += ":binary-operator"
             self.bad(f"returned-with-exception-set:exc={pend}:{why}", call=callsig,
                      trace=[l for _, _, l in ev][:4], returned=repr(res)[:60])
             res = None
@@ -885,9 +887,13 @@ class Driver:
             for s, p in zip(sl0, f0["params"]):
                 self.features.add("param:" + tkind(p["type"]) + (":default-omitted" if s is None else ""))
             if exc is not None:
-                if kw and exc == "TypeError" and not main:
-                    # keyword arguments are a Python-side extension: a wrapper may decline them
+                if kw and exc == "TypeError" and not main and len(f0["params"]) <= 1:
+                    # keyword arguments are a Python-side extension; wrappers of one-parameter functions (METH_O) do
+                    # not take them, all others do ("if they take more than one argument, and the arguments are named")
                     self.count("keyword_calls_declined")
+                    self.features.add(f"kw-declined:{kindsig}:params={len(f0['params'])}:max={max(len(f_['params']) for f_ in fns)}")
+                    if len(f0["params"]) >= 2 and os.environ.get("VF_DEBUG_KW"):
+                        sys.stderr.write(f"KWDECL {callsig} :: {excmsg}\n")
                 else:
                     sp = self.special(f0, sl0)
                     if exc == "OverflowError" and any_oor:
@@ -1428,7 +1434,7 @@ class Driver:
             if self.pending():
                 self.bad(f"returned-with-exception-set:member-set:{tkind(t)}", member=mm["qname"], value=v)
             if peek(w.this) != before:
-                self.bad(f"member-changed-on-error:{tkind(t)}", member=mm["qname"], value=v)
+                self.bad("member-changed-on-error:arg=int-out-of-range", member=mm["qname"], value=v, type=tkind(t))
         elif not mm["const"] and r.random() < 0.3:
             # malformed assignment: TypeError / OverflowError and the member keeps its value
             before = peek(w.this)
